@@ -55,6 +55,11 @@ impl ColumnIndex {
             let index = BlockIndex::decode_length_delimited(&mut index_data)?;
             indexes.push(index);
         }
+        if !index_data.is_empty() {
+            return Err(TracedStorageError::decode(
+                "failed to decode column index: invalid length",
+            ));
+        }
 
         Ok(Self {
             indexes: indexes.into(),
